@@ -26,6 +26,7 @@ def run(ctx, sess):
     ctx.rule('C11.8', 'nothing indexed is dropped: the time-series commit returns without writing its INDEX only when the index holds no entry (or its buffers do not exist)')
     ctx.rule('C11.9', '"including all that share the same timestamp": the index-entry selection of jls_core_ts_seek either probes the entries in index order, or (any other search order, e.g. bisection) never leaves the search on an entry that is only known to equal the requested timestamp (the orderings <, =, > of the probed entry are tracked along the selection loop)')
     ctx.rule('C11.10', '"negative/offset ids": no annotation is refused because of the value of its timestamp: in jls_wr_annotation, jls_wr_ts_anno, jls_twr_annotation and the helpers they hand the timestamp to, no error return is control dependent on a condition over the timestamp - except an order check against the previous timestamp whose remembered value starts at INT64_MIN')
+    ctx.rule('C11.12', 'upper index levels are keyed by the index below: in the time-series commit the timestamp stored into an entry of the level above is read from an index entry (struct jls_index_entry_s) of the level being committed - the entries that were just written as its INDEX chunk - not from its summary, whose entries are not carried upward at close')
     ctx.rule('C11.6', 'INDEX is immediately followed by its SUMMARY in the time-series writer')
     w = P.fn('jls_wr_annotation')
     r = P.fn('jls_core_annotations')
@@ -125,12 +126,8 @@ def run(ctx, sess):
     for c in ta:
         a = [strip_casts(x) for x in c.args]
         ts_ok = a[1].get('op') == 'ref' and a[1].get('name') == 'timestamp'
-        off_ok = False
-        if a[2].get('op') == 'ref':
-            defs, _ = df.reaching_defs(w, a[2]['name'], c.block, c.idx)
-            off_ok = bool(defs) and all(any(nd.get('op') == 'call' and nd.get('callee') == 'jls_raw_chunk_tell' for nd in walk(d.store_parts()[1] or {})) for d in defs)
-            wr = [x for x in w.calls('jls_raw_wr')]
-            off_ok = off_ok and bool(wr) and all(ev_dominates(d, wr[0]) for d in defs) and ev_dominates(wr[0], c)
+        from .c14 import _written_offset_value
+        off_ok = _written_offset_value(w, c, a[2])[0]
         ctx.ob('C11.5', ts_ok and off_ok, w.name, 'index entry = (timestamp, offset of the chunk just written)', c.where(), 'timestamp: %s, offset taken before the write: %s' % (ts_ok, off_ok))
         # the other summary fields
         g = P.fn('jls_wr_ts_anno')
@@ -157,6 +154,7 @@ def run(ctx, sess):
     pending_index_rule(ctx, P, 'C11.8', ('src/wr_ts.c',))
     seek_first_equal_rule(ctx, P, 'C11.9')
     no_timestamp_rejection_rule(ctx, P, 'C11.10')
+    upper_key_rule(ctx, P, 'C11.12')
 
 
 def pending_index_rule(ctx, P, rule, files):
@@ -429,3 +427,43 @@ def no_timestamp_rejection_rule(ctx, P, rule, entries=(('jls_wr_annotation', 'ti
     ctx.ob(rule, True, 'annotation write path', 'functions examined for timestamp-dependent rejections', P.fn(entries[0][0]).where(),
            '%d functions (entries and their helpers receiving the timestamp)' % n)
     ctx.floor('functions of the annotation write path', n, 3)
+
+
+
+def upper_key_rule(ctx, P, rule):
+    n = 0
+    for fn in P.fns_in('src/wr_ts.c'):
+        if not any(c.callee == 'jls_core_wr_index' for c in fn.calls()):
+            continue
+        ctx.saw(fn, 1)
+        # pointer locals into the entries of an index one level up:  &<X>->entries[<X>->header.entry_count++]
+        ups = set()
+        for ev in fn.events():
+            if ev.k not in ('decl', 'store') or ev.e is None:
+                continue
+            rhs = ev.e if ev.k == 'decl' else ev.store_parts()[1]
+            name = ev.name if ev.k == 'decl' else strip_casts(ev.store_parts()[0]).get('name')
+            r0 = strip_casts(rhs) if rhs is not None else None
+            if name and r0 is not None and r0.get('op') == 'un' and r0.get('o') == '&':
+                sub = strip_casts(r0['k'][0])
+                if sub.get('op') == 'sub' and sub.get('t', '').endswith('jls_index_entry_s') or \
+                        (sub.get('op') == 'sub' and any(m.get('op') == 'member' and m.get('field') == 'entries' and 'index' in show(m) for m in walk(sub['k'][0]))):
+                    ups.add(name)
+        for ev in fn.stores():
+            lhs, rhs, o = ev.store_parts()
+            l0 = strip_casts(lhs)
+            if l0.get('op') != 'member' or l0.get('field') != 'timestamp' or rhs is None:
+                continue
+            base = strip_casts(l0['k'][0])
+            if not (base.get('op') == 'ref' and base.get('name') in ups):
+                continue
+            n += 1
+            r0 = strip_casts(rhs)
+            src_rec = r0.get('rec') if r0.get('op') == 'member' else None
+            from_index = r0.get('op') == 'member' and (src_rec == 'jls_index_entry_s' or
+                                                        (src_rec is None and any(m.get('op') == 'ref' and 'index' in (m.get('name') or '') for m in walk(r0))))
+            first = any(m.get('op') == 'sub' and const_of(m['k'][1]) == 0 for m in walk(r0))
+            ctx.ob(rule, bool(from_index and first), fn.name, 'key of the entry added to the level above', ev.where(),
+                   'first entry of this level\'s index' if (from_index and first) else
+                   'the key is %s (record %s): at close a level that was filled only by the close-time propagation has index entries but no summary entries, so the level above is keyed by a stale value and seeks descend into the wrong chunk' % (show(r0)[:50], src_rec))
+    ctx.floor('keys propagated to an upper index level', n, 1)
